@@ -58,7 +58,8 @@ ASSUMPTIONS = [
 ]
 EXPECTED_PROBES = ["probe.cross_event_delivered", "probe.event_on_window_boundary", "probe.idle_partition_then_cross",
                    "probe.window_eq_min_latency", "probe.pingpong", "probe.independent_partitions", "probe.threads_mode",
-                   "probe.daemon_events_with_end_time"]
+                   "probe.daemon_events_with_end_time", "probe.nonzero_start_time", "probe.end_given_as_duration",
+                   "probe.outage_dropped_a_delivery"]
 SHRINK_SKIP = ("n_kinds",)
 
 LAT_NS = [1_000_000, 100_000_000, 700_000_000, 1_000_000_000]
@@ -139,11 +140,21 @@ def gen(rng, tier):
                 e["daemon"] = False
         for i in initial:
             i["daemon"] = False
+    # non-zero start_time (everything shifts with it) and end given as duration=
+    start = rng.choice([0, 0, 0, w_ns, 3 * w_ns + 1, 1_000_000_007])
+    use_duration = end is not None and rng.random() < 0.4
+    # outages: an entity is down ([s, e), the repo's _crashed counter) - only in models with an explicit end or finite traffic
+    outages = []
+    if rng.random() < 0.3:
+        for _ in range(rng.randint(1, 3)):
+            s0 = rng.choice([1, 2, 4, 9, 11, 24]) * w_ns + rng.choice([-1, 0, 1, w_ns // 2])
+            length = rng.choice([w_ns // 4 + 1, w_ns - 1, w_ns, w_ns + 1, 2 * w_ns + 3, lmin // 2 + 1])
+            outages.append({"ent": rng.randrange(n_ent), "s": max(1, s0), "e": max(1, s0) + max(1, length)})
     mode = "threads" if rng.random() < (0.03 if tier == "quick" else 0.08) else "serial"
     if mode == "threads":  # real threads are slow: keep the horizon short
         end = min(end, 15 * w_ns) if end is not None else 15 * w_ns
     return {"parts": parts, "n_kinds": n_kinds, "links": links, "window": window, "handlers": handlers,
-            "initial": initial, "end": end, "mode": mode,
+            "initial": initial, "end": end, "start": start, "use_duration": use_duration, "outages": outages, "mode": mode,
             "sched_seed": rng.randrange(2**31), "workers": rng.randint(1, n_parts)}
 
 
@@ -198,8 +209,26 @@ class World:
                              daemon=bool(e.get("daemon", False))))
         return out
 
+    def outage_events(self):
+        """(entity index, Event) toggling the repo's _crashed window counter on a harness-owned timeline."""
+        out = []
+        st = self.sc.get("start", 0)
+        for o in self.sc.get("outages", []):
+            ent = self.entities[o["ent"]]
+
+            def down(ev, ent=ent):
+                ent._crashed = getattr(ent, "_crashed", 0) + 1
+
+            def up(ev, ent=ent):
+                ent._crashed = max(0, getattr(ent, "_crashed", 0) - 1)
+
+            out.append((o["ent"], Event.once(time=Instant(st + o["s"]), event_type="outage.down", fn=down)))
+            out.append((o["ent"], Event.once(time=Instant(st + o["e"]), event_type="outage.up", fn=up)))
+        return out
+
     def initial(self):
-        return [(i["to"], Event(time=Instant(i["t"]), event_type=f"k{i['k']}", target=self.entities[i["to"]],
+        st = self.sc.get("start", 0)
+        return [(i["to"], Event(time=Instant(st + i["t"]), event_type=f"k{i['k']}", target=self.entities[i["to"]],
                                 daemon=bool(i.get("daemon", False))))
                 for i in self.sc["initial"]]
 
@@ -242,6 +271,11 @@ def _validate(sc):
             raise InvalidScenario("bad initial")
     if not sc["initial"]:
         raise InvalidScenario("no initial events")
+    if sc.get("start", 0) < 0:
+        raise InvalidScenario("negative start")
+    for o in sc.get("outages", []):
+        if not (0 <= o["ent"] < n_ent) or o["s"] < 1 or o["e"] <= o["s"]:
+            raise InvalidScenario("bad outage")
     if sc.get("end") is None:
         allem = [e for h in sc["handlers"].values()
                  for e in h.get("emits", []) + [x for st in h.get("steps", []) for x in st.get("emits", [])]]
@@ -445,13 +479,43 @@ class _TimeTravel(logging.Handler):
 # run
 # --------------------------------------------------------------------------
 
+def _time_kwargs(sc):
+    """start/end arguments shared by both runs, and the effective end instant in ns."""
+    st = sc.get("start", 0)
+    end = sc.get("end")
+    kw = {"start_time": Instant(st)} if st else {}
+    if end is None:
+        return kw, None
+    if sc.get("use_duration"):
+        d = end / 1e9
+        kw["duration"] = d
+        return kw, (Instant(st) + d).nanoseconds
+    kw["end_time"] = Instant(st + end)
+    return kw, st + end
+
+
 def run_sequential(sc):
     w = World(sc)
-    end = sc.get("end")
-    sim = Simulation(entities=w.entities, end_time=Instant(end) if end is not None else None)
+    kw, eff_end = _time_kwargs(sc)
+    sim = Simulation(entities=w.entities, **kw)
     for _, ev in w.initial():
         sim.schedule(ev)
+    for _, ev in w.outage_events():
+        sim.schedule(ev)
+    # every processed event (also those dropped because the target is down) - to recognise exact ties with outage edges
+    st = sc.get("start", 0)
+    edges = {}
+    for o in sc.get("outages", []):
+        edges.setdefault(o["ent"], set()).update((st + o["s"], st + o["e"]))
+    w.boundary_tie = False
+    if edges:
+        def tap(ev):
+            idx = getattr(ev.target, "idx", None)
+            if idx in edges and ev.time.nanoseconds in edges[idx]:
+                w.boundary_tie = True
+        sim.control.on_event(tap)
     sim.run()
+    w.eff_end = eff_end
     return w
 
 
@@ -477,9 +541,12 @@ def run_parallel(sc):
     try:
         with _Patch(sc.get("mode", "serial"), sc.get("sched_seed", 0)) as patch, warnings.catch_warnings():
             warnings.simplefilter("ignore")
+            kw, _eff = _time_kwargs(sc)
             ps = ParallelSimulation(partitions=parts, links=links or None, window_size=sc["window"] if links else None,
-                                    end_time=Instant(end) if end is not None else None, max_workers=sc.get("workers"))
+                                    max_workers=sc.get("workers"), **kw)
             for to, ev in w.initial():
+                ps.schedule(ev, partition=names[w.ent_part[to]])
+            for to, ev in w.outage_events():
                 ps.schedule(ev, partition=names[w.ent_part[to]])
             summary = ps.run()
             switches = _BATON.switches if _BATON is not None else SerialPool.orders
@@ -503,8 +570,13 @@ def run(sc):
         if s is None:
             raise
         return result(sig=f"C05/{s}", msg=repr(exc))
-    end = sc.get("end")
+    end = seq.eff_end
     sig = msg = None
+    if seq.boundary_tie:
+        # a delivery coincides exactly with an outage edge of its target: whether it is handled depends on the
+        # same-instant order, which the statement leaves open between partitions - not judged
+        return result(sig=None, digest="tie", nontrivial=False, counters={"skipped.exact_tie_with_outage_edge": 1},
+                      klass="skipped-tie")
     if par.problems:
         sig, msg = par.problems[0]
     if sig is None and tt_hits:
@@ -537,13 +609,16 @@ def run(sc):
     lmin = min(sc["links"].values()) if sc["links"] else 0
     counters = {
         "probe.cross_event_delivered": int(cross > 0),
-        "probe.event_on_window_boundary": int(any(t % w_ns == 0 and t > 0 for t in all_times)),
+        "probe.event_on_window_boundary": int(any((t - sc.get("start", 0)) % w_ns == 0 and t > sc.get("start", 0) for t in all_times)),
         "probe.idle_partition_then_cross": int(_idle_then_cross(sc, seq, w_ns)),
         "probe.window_eq_min_latency": int(bool(sc["links"]) and (sc["window"] is None or int(sc["window"] * 1e9) == lmin)),
         "probe.pingpong": int(any(f"{k.split('>')[1]}>{k.split('>')[0]}" in sc["links"] for k in sc["links"]) and cross >= 2),
         "probe.independent_partitions": int(not sc["links"]),
         "probe.threads_mode": int(sc.get("mode") == "threads"),
         "probe.daemon_events_with_end_time": int(end is not None and any(i.get("daemon") for i in sc["initial"])),
+        "probe.nonzero_start_time": int(bool(sc.get("start"))),
+        "probe.end_given_as_duration": int(bool(sc.get("use_duration")) and end is not None),
+        "probe.outage_dropped_a_delivery": int(bool(sc.get("outages")) and _outage_effective(sc, seq)),
         "sched.task_orders_or_baton_switches": switches,
         "windows": total_windows,
         "cross_events": cross,
@@ -555,6 +630,16 @@ def run(sc):
                   nontrivial=cross >= 1 and n_deliv >= 6, counters=counters,
                   sim_s=(max(all_times) / 1e9) if all_times else 0.0, deliveries=n_deliv,
                   klass=("independent" if not sc["links"] else sc.get("mode", "serial")), state=state)
+
+
+def _outage_effective(sc, seq) -> bool:
+    """Did some entity with an outage see no delivery inside the outage although it had traffic around it?"""
+    st = sc.get("start", 0)
+    for o in sc.get("outages", []):
+        ts = [x[0] for x in seq.entities[o["ent"]].hist]
+        if ts and min(ts) < st + o["s"] and not any(st + o["s"] <= t < st + o["e"] for t in ts):
+            return True
+    return False
 
 
 def _msub(a, b):
